@@ -386,7 +386,7 @@ func (rs *s3ClientStorage) HeadObject(ctx context.Context, bucketName storage.Bu
 	})
 	var notFoundError *types.NotFound
 	if err != nil && errors.As(err, &notFoundError) {
-		return nil, storage.ErrNoSuchBucket
+		return nil, rs.objectNotFoundError(ctx, bucketName, err)
 	}
 	if err != nil {
 		return nil, err
@@ -420,6 +420,21 @@ func (rs *s3ClientStorage) HeadObject(ctx context.Context, bucketName storage.Bu
 			UserMetadata:            userMetadata,
 		},
 	}, nil
+}
+
+// objectNotFoundError tells what a 404 answer to HeadObject / GetObject stands
+// for. A HEAD answer carries no error document: a current delete marker is
+// announced by the x-amz-delete-marker header, a missing bucket is found by
+// asking for the bucket; otherwise the key (or version) does not exist.
+func (rs *s3ClientStorage) objectNotFoundError(ctx context.Context, bucketName storage.BucketName, err error) error {
+	var responseError *smithyhttp.ResponseError
+	if errors.As(err, &responseError) && responseError.Response != nil && responseError.Response.Header.Get("x-amz-delete-marker") == "true" {
+		return &storage.CurrentDeleteMarkerError{VersionID: responseError.Response.Header.Get("x-amz-version-id")}
+	}
+	if _, headBucketErr := rs.HeadBucket(ctx, bucketName); headBucketErr != nil {
+		return headBucketErr
+	}
+	return storage.ErrNoSuchKey
 }
 
 func (rs *s3ClientStorage) GetObject(ctx context.Context, bucketName storage.BucketName, key storage.ObjectKey, ranges []storage.ByteRange, opts *storage.GetObjectOptions) (*storage.Object, []io.ReadCloser, error) {
@@ -469,7 +484,7 @@ func (rs *s3ClientStorage) GetObject(ctx context.Context, bucketName storage.Buc
 			for _, r := range readers {
 				r.Close()
 			}
-			return nil, nil, storage.ErrNoSuchBucket
+			return nil, nil, rs.objectNotFoundError(ctx, bucketName, err)
 		}
 		if err != nil {
 			// Close any readers we've already opened
